@@ -3,8 +3,8 @@
 What is dumped is what FIXSchema.validate reads, not the XML: the field table (`_tag2field`),
 the header set, and per message type (`_messages_types`) the ordered members with the
 `required[...]` entry validate consults, nested groups recursively.  The parse algorithm
-(deferred component resolution) is outside the model; harness/c15.py checks differentially
-that the dump does not depend on the declaration order of <components>.
+(deferred component resolution) is modelled separately (Fix/SchemaParse.v) over the raw
+declarations emitted below as `decls`.
 
 Plain-data form (also used by harness/c15.py, which imports `dump` / `load_plain`):
   {"types": [ftype, ...], "names": [field name, ...],
